@@ -49,6 +49,10 @@ CONTEXT = {
     "return": ("    return ", ";"), "letunderscore": ("    let _ = ", ";"), "afterstring": ('    let _s = "str"; ', ";"),
     "aftermultibyte": ("    /* \u00e9\u4e16 */ ", ";"), "break": ("    loop { break ", "; }"),
     "tabindent": ("\t\t", ";"),
+    # other literals earlier on the same line whose text contains quotes: raw strings (no escapes), a raw string ending in a
+    # backslash, a byte character, a lifetime
+    "afterrawstring": ('    let _r = r#"say "hi" there"#; ', ";"), "afterrawbackslash": ('    let _w = r"C:\\dir\\"; ', ";"),
+    "afterbytechar": ("    let _b = b'\"'; ", ";"), "afterlifetime": ("    let _l: &'static str = \"s\"; ", ";"),
     # a string literal containing comment openers earlier on the same line
     "afterurl": ('    let _u = "http://example.org/*x"; ', ";"),
     # an already referenced statement (in both styles) with multi-byte text earlier on the same line
